@@ -45,7 +45,7 @@ var stubsLevelA = []string{
 	"apd.NumDigits: fork on 10^(n-1) <= |b| < 10^n (the real table.go code is executed and checked in C19)",
 	"errors.New, fmt.Errorf: fresh non-nil error, message ignored",
 	"(Condition).String inside error construction: empty body (formatting is not the subject; executed for real in the C04 harness)",
-	"strings.HasPrefix/IndexByte/ToLower (ASCII only), strconv.ParseInt/ParseUint/AppendInt/AppendUint (base 10): documented contracts",
+	"apd.asciiLower: summarised by its per-byte contract, which the VerifAsciiLower harness discharges on the real loop (C14); strings.ToLower (no longer called by the parser): exact on ASCII plus the two runes that lower-case to ASCII", "strings.HasPrefix/IndexByte, strconv.ParseInt/ParseUint/AppendInt/AppendUint (base 10): documented contracts",
 }
 
 var assumeCommon = []string{
@@ -359,12 +359,16 @@ func init() {
 	parseInstances := func(tier string, maxAscii, maxShaped int) []Instance {
 		var out []Instance
 		for n := 0; n <= maxAscii; n++ {
-			out = append(out, inst("VerifParse", n, p("n", n, "alphabet", "ascii", "via", "setstring", "K", 3)))
+			out = append(out, inst("VerifParse", n, p("n", n, "alphabet", "bytes", "via", "setstring", "K", 3)))
 		}
 		for _, via := range []string{"unmarshal", "scanstring", "scanbytes", "new"} {
 			for _, n := range []int{3, 5} {
-				out = append(out, inst("VerifParse", n, p("n", n, "alphabet", "ascii", "via", via, "K", 3)))
+				out = append(out, inst("VerifParse", n, p("n", n, "alphabet", "bytes", "via", via, "K", 3)))
 			}
+		}
+		// the contract by which asciiLower is summarised in the parser harnesses, on the real loop
+		for n := 1; n <= 4; n++ {
+			out = append(out, inst("VerifAsciiLower", 1, p("n", n, "realAsciiLower", 1)))
 		}
 		for n := maxAscii + 1; n <= maxShaped; n++ {
 			out = append(out, inst("VerifParse", 3*n, p("n", n, "alphabet", "shaped", "via", "setstring", "K", 3)))
@@ -403,9 +407,9 @@ func init() {
 			return out
 		},
 		PathModels: true, PathModelSample: 40, Stubs: stubsLevelA, Assumptions: append([]string{"the numeric-string grammar transcribed in /verif/harness/h_parse.go and the to-scientific-string rules in h_format.go"}, assumeCommon...),
-		Bounds: map[string]interface{}{"quick": "parser: EVERY byte string over 0..127 of length 0..7 through SetString (lengths 3 and 5 through UnmarshalText, Scan(string), Scan([]byte), NewFromString), and every string of length 8 over the bytes that occur in numeric strings; formatting: all forms and signs, coefficients up to 4 digits, exponents -12..8 plus the windows at +-100000 and the -2000 zero boundary; Format flags: +, space, -, 0, width 0..9, eight verbs",
+		Bounds: map[string]interface{}{"quick": "parser: EVERY byte string over 0..255 of length 0..7 through SetString (lengths 3 and 5 through UnmarshalText, Scan(string), Scan([]byte), NewFromString), and every string of length 8 over the bytes that occur in numeric strings; formatting: all forms and signs, coefficients up to 4 digits, exponents -12..8 plus the windows at +-100000 and the -2000 zero boundary; Format flags: +, space, -, 0, width 0..9, eight verbs",
 			"thorough": "numeric-alphabet strings up to length 10; 8-digit coefficients"},
-		Outside:       []string{"bytes >= 0x80 (strings.ToLower is modelled for ASCII only)", "NaN payloads above 2^64-1 need 23+ bytes", "longer strings / coefficients"},
+		Outside:       []string{"NaN payloads above 2^64-1 need 23+ bytes", "longer strings / coefficients"},
 		RequireCovers: []string{"parse.accepted", "parse.rejected", "format.zero"}}
 	checkDefs["C13"] = &CheckDef{Prop: "C13", Enable: []string{"C13."},
 		Instances: func(tier string) []Instance {
